@@ -1,7 +1,328 @@
 import H5V.Proto
-/- engine `tb` (stub) -/
-namespace H5V.Model.HtmlTBDriver
+import H5V.Model.HtmlTB
+import H5V.Model.DomDriver
+/- engine `tb` — html5ever's HTML tree builder (harness/src/engines/tb.rs speaks the same protocol).
 
-def runCase (_fields : List String) : String := "unimplemented"
+   case = `tb<TAB>mode<TAB>opts<TAB>ctx<TAB>payload`
+   mode    `tok`  payload = tokens fed straight into `TreeBuilder::process_token`, then `end()`
+           `txt`  payload = text chunks (hex strings separated by `|`) through Tokenizer + TreeBuilder
+                  (`parse_document` / `parse_fragment`, `Parser::process` per chunk, `finish`)
+   opts    `-` or comma list `k=v`: `s` scripting_enabled (default 1), `srcdoc` iframe_srcdoc (0),
+           `q` initial quirks mode n|l|q (n), `exact` exact_errors (0), `dropdt` drop_doctype (0),
+           `cs` context_element_allows_scripting (txt fragments; default = s), `tx` tokenizer
+           exact_errors (txt; 0)
+   ctx     `-` (document) or `<qualname>,<attrs>,<form 0|1>`: fragment with that context element
+           (created through `create_element`), `form=1`: a `form` element as form pointer
+   tokens  `-` or `;`-separated, each optionally followed by `@<line>` (default line 1):
+           `S|E,<name>,<selfclosing 0|1>,<hadDup 0|1>(,<attr name>,<attr value>)*`  `T,<text>`  `N`
+           `C,<text>`  `D,<name|~>,<public|~>,<system|~>,<forcequirks 0|1>`  `Z` (EOF)  `X,<msg>`
+   strings: space-separated hex code points, `-` empty; qualified names / attribute lists as in
+   engine `rcdom`.
+
+   output  tok: `T=<op;op;…>@V=<indices of ops violating Contract|->@D=<Dom.dump>@R=<results>@E=<#parse errors>`
+           txt: `T=<canonical ops>@V=<# violating ops>@D=<dump>@R=<results>@E=<#>@K=<#EOF tokens>,<last token was EOF 0|1>`
+           `PANIC <class>@<file>:<line>` when the builder (or the sink) panics.
+   ops as in engine `rcdom` with handle numbers in creation order, `pe` without its message; the six
+   namespace URLs (hex) are abbreviated to `$h $m $s $l $x $n` (html mathml svg xlink xml xmlns).
+   canonical ops (txt): the pure queries `en sn tc ip ln adsr` and `pe` are dropped (`E=-`) and consecutive text
+   insertions at the same place are merged (the model tokenizer emits one character per token).
+   results: the non-Continue answers of `process_token`: `P`, `R0`…`R4`, `S<handle>`, `I:<hex>`. -/
+namespace H5V.Model.HtmlTBDriver
+open H5V.Proto H5V.Model.Dom H5V.Model.HtmlTB
+open H5V.Model.DomDriver (parseStr? parseQual? parseAttrs?)
+
+abbrev Str := List Char
+
+/-! ### parsing the case -/
+
+structure Cfg where
+  opts : Opts := {}
+  cs : Option Bool := none
+  tx : Bool := false
+
+def parseBool? : String → Option Bool
+  | "0" => some false | "1" => some true | _ => none
+
+def parseOpts? (s : String) : Option Cfg :=
+  if s == "-" then some {} else
+  (s.splitOn ",").foldlM (fun (c : Cfg) kv =>
+    match kv.splitOn "=" with
+    | ["s", v] => do some { c with opts := { c.opts with scriptingEnabled := ← parseBool? v } }
+    | ["srcdoc", v] => do some { c with opts := { c.opts with iframeSrcdoc := ← parseBool? v } }
+    | ["exact", v] => do some { c with opts := { c.opts with exactErrors := ← parseBool? v } }
+    | ["dropdt", v] => do some { c with opts := { c.opts with dropDoctype := ← parseBool? v } }
+    | ["q", "n"] => some { c with opts := { c.opts with quirksMode := .noQuirks } }
+    | ["q", "l"] => some { c with opts := { c.opts with quirksMode := .limitedQuirks } }
+    | ["q", "q"] => some { c with opts := { c.opts with quirksMode := .quirks } }
+    | ["cs", v] => do some { c with cs := some (← parseBool? v) }
+    | ["tx", v] => do some { c with tx := ← parseBool? v }
+    | _ => none) {}
+
+structure Ctx where
+  name : QualName
+  attrs : List Attr
+  form : Bool
+
+def parseCtx? (s : String) : Option (Option Ctx) :=
+  if s == "-" then some none else
+  match s.splitOn "," with
+  | [q, a, f] => do some (some { name := ← parseQual? q, attrs := ← parseAttrs? a, form := ← parseBool? f })
+  | _ => none
+
+def parseOptStr? (s : String) : Option (Option Str) :=
+  if s == "~" then some none else (parseStr? s).map some
+
+def parseTagAttrs? : List String → Option (List Attr)
+  | [] => some []
+  | n :: v :: rest => do
+    let n ← parseStr? n
+    let v ← parseStr? v
+    let as ← parseTagAttrs? rest
+    some ({ name := plainName n, value := v } :: as)
+  | _ => none
+
+def splitLine? (s : String) : Option (String × Nat) :=
+  match s.splitOn "@" with
+  | [b] => some (b, 1)
+  | [b, l] => do some (b, ← l.toNat?)
+  | _ => none
+
+def parseTokenBody? (body : String) : Option TokToken :=
+  match body.splitOn "," with
+  | ["D", n, p, sy, fq] => do
+    some (.doctype { name := ← parseOptStr? n, publicId := ← parseOptStr? p, systemId := ← parseOptStr? sy,
+                     forceQuirks := ← parseBool? fq })
+  | ["T", t] => (parseStr? t).map .chars
+  | ["N"] => some .nullChar
+  | ["C", t] => (parseStr? t).map .comment
+  | ["Z"] => some .eof
+  | ["X", m] => (parseStr? m).map .parseError
+  | k :: name :: sc :: dup :: attrs =>
+    if k == "S" || k == "E" then do
+      some (TokToken.tag { kind := if k == "S" then .startTag else .endTag, name := ← parseStr? name,
+                           selfClosing := ← parseBool? sc, hadDup := ← parseBool? dup,
+                           attrs := ← parseTagAttrs? attrs })
+    else none
+  | _ => none
+
+def parseTokenFull? (s : String) : Option (TokToken × Nat) := do
+  let (body, line) ← splitLine? s
+  some (← parseTokenBody? body, line)
+
+def parseTokens? (s : String) : Option (List (TokToken × Nat)) :=
+  if s == "-" then some [] else (s.splitOn ";").mapM parseTokenFull?
+
+def parseChunks? (s : String) : Option (List Str) := (s.splitOn "|").mapM parseStr?
+
+/-! ### rendering -/
+
+/-- arena id → handle number (creation order; a template element is followed by its contents) -/
+structure Handles where
+  byId : Array (Option Nat)
+  next : Nat
+
+def Handles.add (h : Handles) (id : Id) : Handles :=
+  let byId := if id < h.byId.size then h.byId else h.byId ++ Array.replicate (id + 1 - h.byId.size) none
+  { byId := byId.set! id (some h.next), next := h.next + 1 }
+
+def Handles.show (h : Handles) (id : Id) : String :=
+  match h.byId[id]? with
+  | some (some k) => toString k
+  | _ => "?"
+
+def showChild (h : Handles) : NodeOrText → String
+  | .node c => "n" ++ h.show c
+  | .text s => "t" ++ Dom.hexStr s
+
+def showFlags (f : ElementFlags) : String :=
+  let s := (if f.template then "t" else "") ++ (if f.mathmlIP then "m" else "") ++
+    (if f.hadDuplicateAttributes then "d" else "")
+  if s.isEmpty then "-" else s
+
+def showOp (h : Handles) : SinkOp → String
+  | .parseError _ => "pe"
+  | .getDocument => "doc"
+  | .elemName t => "en," ++ h.show t
+  | .createElement n as f => "ce," ++ Dom.qualNameStr n ++ "," ++ showFlags f ++ "," ++ Dom.attrsStr as
+  | .createComment t => "cc," ++ Dom.hexStr t
+  | .createPi t d => "cp," ++ Dom.hexStr t ++ "," ++ Dom.hexStr d
+  | .append p c => "ap," ++ h.show p ++ "," ++ showChild h c
+  | .appendBasedOnParentNode e p c => "abp," ++ h.show e ++ "," ++ h.show p ++ "," ++ showChild h c
+  | .appendDoctypeToDocument n p s => "dt," ++ Dom.hexStr n ++ "," ++ Dom.hexStr p ++ "," ++ Dom.hexStr s
+  | .markScriptAlreadyStarted n => "ms," ++ h.show n
+  | .pop n => "pop," ++ h.show n
+  | .getTemplateContents t => "tc," ++ h.show t
+  | .sameNode x y => "sn," ++ h.show x ++ "," ++ h.show y
+  | .setQuirksMode m => "qm," ++ (match m with | .quirks => "q" | .limitedQuirks => "l" | .noQuirks => "n")
+  | .appendBeforeSibling s c => "abs," ++ h.show s ++ "," ++ showChild h c
+  | .addAttrsIfMissing t as => "aa," ++ h.show t ++ "," ++ Dom.attrsStr as
+  | .associateWithForm t f n p =>
+      "af," ++ h.show t ++ "," ++ h.show f ++ "," ++ h.show n ++ "," ++ (match p with | some q => h.show q | none => "-")
+  | .removeFromParent t => "rm," ++ h.show t
+  | .reparentChildren n p => "rc," ++ h.show n ++ "," ++ h.show p
+  | .isMathmlAnnotationXmlIntegrationPoint t => "ip," ++ h.show t
+  | .setCurrentLine n => "ln," ++ toString n
+  | .allowDeclarativeShadowRoots p => "adsr," ++ h.show p
+  | .attachDeclarativeShadow l t as => "ads," ++ h.show l ++ "," ++ h.show t ++ "," ++ Dom.attrsStr as
+  | .maybeCloneAnOptionIntoSelectedcontent o => "mc," ++ h.show o
+
+/-- is the op a pure query or a parse error (dropped from the canonical trace of `txt` cases: the
+number of parse errors depends on how the tokenizer cuts character runs)? -/
+def isQuery : SinkOp → Bool
+  | .elemName _ | .sameNode _ _ | .getTemplateContents _ | .isMathmlAnnotationXmlIntegrationPoint _
+  | .setCurrentLine _ | .allowDeclarativeShadowRoots _ | .parseError _ => true
+  | _ => false
+
+/-- merge `op tA ; op tB` (same op, same place) into `op tAB` -/
+def mergeText : SinkOp → SinkOp → Option SinkOp
+  | .append p (.text a), .append p' (.text b) => if p == p' then some (.append p (.text (a ++ b))) else none
+  | .appendBasedOnParentNode e p (.text a), .appendBasedOnParentNode e' p' (.text b) =>
+      if e == e' && p == p' then some (.appendBasedOnParentNode e p (.text (a ++ b))) else none
+  | .appendBeforeSibling s (.text a), .appendBeforeSibling s' (.text b) =>
+      if s == s' then some (.appendBeforeSibling s (.text (a ++ b))) else none
+  | _, _ => none
+
+/-- canonical form of a trace (oldest first): queries dropped, adjacent text insertions merged.
+`acc` is the output so far, newest first. -/
+def canonOps : List SinkOp → List SinkOp → List SinkOp
+  | [], acc => acc.reverse
+  | op :: rest, acc =>
+    if isQuery op then canonOps rest acc
+    else match acc with
+      | prev :: acc' =>
+        (match mergeText prev op with
+         | some m => canonOps rest (m :: acc')
+         | none => canonOps rest (op :: acc))
+      | [] => canonOps rest [op]
+
+/-- replay the trace on a fresh DOM: handle table, rendered ops, indices of the ops that violate
+`Contract` -/
+def replay (trace : List (SinkOp × Output)) : Handles × List String × List Nat :=
+  let h0 : Handles := (Handles.add { byId := #[], next := 0 } Dom.document)
+  let (h, ops, viol, _, _) := trace.foldl (fun (acc : Handles × List String × List Nat × Dom × Nat) (op, out) =>
+    let (h, ops, viol, d, i) := acc
+    let viol := if d.contractOk op then viol else i :: viol
+    let line := showOp h op
+    let d' := match d.apply op with | .ok (d', _) => d' | .error _ => d
+    let h := match op, out with
+      | .createElement .., .node id =>
+        let h := h.add id
+        (match d'.templateContentsOf id with | some tc => h.add tc | none => h)
+      | .createComment _, .node id => h.add id
+      | .createPi _ _, .node id => h.add id
+      | _, _ => h
+    (h, line :: ops, viol, d', i + 1)) (h0, [], [], Dom.new, 0)
+  (h, ops.reverse, viol.reverse)
+
+def showResult (h : Handles) : SinkResult → String
+  | .continue_ => "C"
+  | .script n => "S" ++ h.show n
+  | .plaintext => "P"
+  | .rawData .rcdata => "R0"
+  | .rawData .rawtext => "R1"
+  | .rawData .scriptData => "R2"
+  | .rawData (.scriptDataEscaped .escaped) => "R3"
+  | .rawData (.scriptDataEscaped .doubleEscaped) => "R4"
+  | .encodingIndicator s => "I:" ++ Dom.hexStr s
+
+def joinOr (sep : String) (l : List String) : String := if l.isEmpty then "-" else sep.intercalate l
+
+def countErrors (trace : List (SinkOp × Output)) : Nat :=
+  (trace.filter (fun (op, _) => match op with | .parseError _ => true | _ => false)).length
+
+/-- `PANIC <class>@<file>:<line>` from a model error string `class@file:line: text` -/
+def showPanic (e : String) : String := "PANIC " ++ ((e.splitOn ": ").headD e)
+
+def renderTok (s : State) (results : List SinkResult) : String :=
+  let trace := s.traceRev.reverse
+  let (h, ops, viol) := replay trace
+  "T=" ++ joinOr ";" ops ++ "@V=" ++ joinOr "," (viol.map toString) ++ "@D=" ++ s.dom.dump
+    ++ "@R=" ++ joinOr "," (results.reverse.map (showResult h)) ++ "@E=" ++ toString (countErrors trace)
+
+def renderTxt (j : Joint.JState) : String :=
+  let s := j.tb
+  let trace := s.traceRev.reverse
+  let (h, _, viol) := replay trace
+  let canon := canonOps (trace.map (·.1)) []
+  "T=" ++ joinOr ";" (canon.map (showOp h)) ++ "@V=" ++ toString viol.length ++ "@D=" ++ s.dom.dump
+    ++ "@R=" ++ joinOr "," (j.results.reverse.map (showResult h)) ++ "@E=-"
+    ++ "@K=" ++ toString j.nEof ++ "," ++ (if j.lastWasEof then "1" else "0")
+
+/-! ### running -/
+
+/-- `parse_fragment` / the harness's token-level set-up: create the context element (and the form
+element), then `TreeBuilder::new_for_fragment`; for a document `TreeBuilder::new` -/
+def setup (ctx : Option Ctx) : M Unit := do
+  match ctx with
+  | none => newTB
+  | some c =>
+    let ctxElem ← createElementWithFlags c.name c.attrs false
+    let form ← if c.form then do
+        let f ← createElementWithFlags (htmlQual "form".toList) [] false
+        pure (some f)
+      else pure none
+    newForFragment ctxElem form
+
+def runTok (cfg : Cfg) (ctx : Option Ctx) (toks : List (TokToken × Nat)) : String :=
+  let prog : M (List SinkResult) := do
+    setup ctx
+    let rs ← processTokens toks []
+    finishTB
+    pure rs
+  match prog.run (State.init cfg.opts) with
+  | .error e => showPanic e
+  | .ok (rs, s) => renderTok s rs
+
+def runTxt (cfg : Cfg) (ctx : Option Ctx) (chunks : List Str) : String :=
+  let allowsScripting := cfg.cs.getD cfg.opts.scriptingEnabled
+  let prog : M H5V.Model.HtmlTok.State := do
+    setup ctx
+    match ctx with
+    | none => pure .data
+    | some _ => tokenizerStateForContextElem allowsScripting
+  match prog.run (State.init cfg.opts) with
+  | .error e => showPanic e
+  | .ok (st, tb) =>
+    let o : H5V.Model.HtmlTok.Opts := { exactErrors := cfg.tx }
+    let m0 : H5V.Model.HtmlTok.Mach := { state := st }
+    let r := chunks.foldlM (fun (acc : H5V.Model.HtmlTok.Mach × Str × Joint.JState) ch =>
+      Joint.processChunk o 100000 acc.1 acc.2.1 ch acc.2.2) (m0, [], ({ tb := tb } : Joint.JState))
+    match r with
+    | .error e => showPanic e
+    | .ok (m, inp, j) =>
+      -- `Parser::finish`: loop_until_done, then the queue must be empty (driver.rs:132)
+      match Joint.processChunk o 100000 m inp [] j with
+      | .error e => showPanic e
+      | .ok (m, inp, j) =>
+        if !inp.isEmpty then "PANIC assert@driver.rs:132"
+        else match Joint.finish o m j with
+          | .error e => showPanic e
+          | .ok j => renderTxt j
+
+/-- the six namespace URLs are abbreviated in the output (`$h`, `$m`, `$s`, `$l`, `$x`, `$n`) -/
+def nsAbbrevs : List (String × String) :=
+  [(Dom.hexStr nsHtml, "$h"), (Dom.hexStr nsMathml, "$m"), (Dom.hexStr nsSvg, "$s"),
+   (Dom.hexStr nsXlink, "$l"), (Dom.hexStr nsXml, "$x"), (Dom.hexStr nsXmlns, "$n")]
+
+def abbrevNs (s : String) : String := nsAbbrevs.foldl (fun s (pat, r) => s.replace pat r) s
+
+def runCase1 (fields : List String) : String :=
+  match fields with
+  | [mode, optsS, ctxS, payload] =>
+    match parseOpts? optsS, parseCtx? ctxS with
+    | some cfg, some ctx =>
+      if mode == "tok" then
+        match parseTokens? payload with
+        | some toks => runTok cfg ctx toks
+        | none => "bad-case"
+      else if mode == "txt" then
+        match parseChunks? payload with
+        | some chunks => runTxt cfg ctx chunks
+        | none => "bad-case"
+      else "bad-case"
+    | _, _ => "bad-case"
+  | _ => "bad-case"
+
+def runCase (fields : List String) : String := abbrevNs (runCase1 fields)
 
 end H5V.Model.HtmlTBDriver
